@@ -18,5 +18,5 @@ PROP = {
  'assumptions': ['SIGPIPE is ignored in the relay process (as src/relay/main.cpp does)',
                  'the harness process opens no descriptors of its own during a case other than the client sockets it closes again'],
  'confirm_replays': 2,
- 'tiers': {'quick': [rc(2500)],
-           'thorough': [rc(6000, W), fuzz(240, 8, max_len=8 + 6 * 80)]}}
+ 'tiers': {'quick': [rc(5000)],
+           'thorough': [rc(10000, W), fuzz(240, 8, max_len=8 + 6 * 80)]}}
